@@ -9,6 +9,7 @@ args = sys.argv[1:]
 tier = "quick"
 only = []
 allprops = False
+forced = None
 runs = None
 i = 0
 while i < len(args):
@@ -16,6 +17,7 @@ while i < len(args):
     if a == "--tier": tier = args[i+1]; i += 2
     elif a == "--runs": runs = args[i+1]; i += 2
     elif a == "--all-props": allprops = True; i += 1
+    elif a == "--props": forced = args[i+1].split(","); i += 2
     elif a == "--only": only = args[i+1:]; break
     else: i += 1
 claimed = [c["property_id"] for c in json.load(open("/verif/MANIFEST.json"))["checks"]]
@@ -27,7 +29,7 @@ for d in sorted(glob.glob("/verif/seeded/*/") + glob.glob("/verif/mutants/*/")):
     patch = os.path.join(d, "patch.diff")
     if not os.path.exists(patch): continue
     meta = json.load(open(os.path.join(d, "meta.json")))
-    props = claimed if allprops else [meta["property"]]
+    props = forced if forced else (claimed if allprops else [meta["property"]])
     tmp = tempfile.mkdtemp(prefix="sens.")
     try:
         subprocess.check_call(["git", "-C", "/repo", "worktree", "add", "--detach", tmp + "/r", "HEAD"], stdout=subprocess.DEVNULL, stderr=subprocess.DEVNULL)
